@@ -2,8 +2,10 @@
 Fault enumeration: for a corpus of multi-block, multi-stream files (tiny ones generated from spec/BZ2.tla,
 lbzip2 and libbz2 output with first / middle / last blocks and later concatenated streams) EVERY bit of
 EVERY stored block CRC and stream CRC - located through the field map of the calibrated inspector - is
-flipped in turn and the real binary must exit with status 1, for worker counts 1, 2 and 4 (and small input
-blocks).  Exhaustive per file."""
+flipped in turn and the real binary must exit with status 1, for worker counts 1, 2 and 4, small input
+blocks, and input blocks of one and two 32-bit words (every field then straddles calls of the resumable
+parser / retriever in the way its bit offset dictates; the corpus has fields at many offsets mod 32).
+Exhaustive per file."""
 import bz2, random
 import vlib, sched, fmtsession, bzgen, bzfmt
 
@@ -21,7 +23,7 @@ def run(rep, tier, replay):
         ins = bzfmt.inspect(it.data)
         if len(ins.blocks) >= 3 and len(ins.streams) >= 2:
             multi.append((it, ins))
-    for it, ins in multi[: (2 if tier == "quick" else 12)]:
+    for it, ins in multi[: (5 if tier == "quick" else 16)]:
         files.append((it.label, it.data, ins))
     # real encoder output: four blocks at level 1, then a second and third stream
     data = rng.randbytes(330000)
@@ -51,6 +53,14 @@ def run(rep, tier, replay):
                                    outnull=big)
                     c.field = (label, fname, bit)
                     cases.append(c)
+                if not big:
+                    # one 32-bit word per input block (and two): the parser and the retriever are suspended at every word boundary,
+                    # so every field is split across calls in whichever way its bit offset dictates
+                    for W, g in ((2, 4), (1, 8)):
+                        env = {"VERIF_IN_GRANUL": g, "VERIF_SCHED_SEED": rng.randrange(50)}
+                        c = sched.Case("%s %s bit%d|d W=%d %s" % (label, fname, bit, W, env), ["-d", "-n", str(W)], bad, env, kind="expand", timeout=60)
+                        c.field = (label, fname, bit)
+                        cases.append(c)
     runs = sched.run_cases(exe, cases, par=12)
     seen = set()
     for t in runs:
